@@ -609,6 +609,15 @@ def main() -> int:
         print(text)
     if not p.exists() or p.read_text() != text:
         p.write_text(text)
+    import py2lean_codec  # noqa: E402
+
+    text, problems = py2lean_codec.translate_codec(Path(args.repo))
+    all_problems += ["[Gen.Codec] " + x for x in problems]
+    p = outdir / "Codec.lean"
+    if args.print:
+        print(text)
+    if not p.exists() or p.read_text() != text:
+        p.write_text(text)
     for pr in all_problems:
         print("py2lean: " + pr)
     return 3 if all_problems else 0
